@@ -297,6 +297,39 @@ def rule_single_names_vs_whole_names(ctx: Ctx) -> None:
     ctx.add("1-closure", BASE, "", True, f"{n} set operation(s) between name collections examined", key="name-kinds-scan")
 
 
+def rule_settings_tolerate_the_restriction(ctx: Ctx) -> None:
+    """Per-output settings (`executor={name: ...}`) are written for the full pipeline; after the restriction the store only has the
+    outputs that are computed.  A lookup `store[name]` for every configured name makes every partial request fail with KeyError."""
+    P = ctx.prog
+    n = 0
+    for f in P.functions_in("pipefunc.map._prepare"):
+        ps = f.param_names()
+        if "store" not in ps or "executor" not in ps:
+            continue
+        cfg = ctx.cfg(f)
+        for sub in [x for x in ast.walk(f.node) if isinstance(x, ast.Subscript) and isinstance(x.ctx, ast.Load) and norm(x.value) == "store" and isinstance(x.slice, ast.Name)]:
+            # where does the key come from?  a loop / comprehension over names derived from `executor`
+            from ..flow import element_domain
+            doms = element_domain(ctx, f, sub.slice.id, ("store", "store.keys()"))
+            if all(v[0] == "whole" for v in doms) and doms:
+                continue  # iterates the store itself
+            n += 1
+            guarded = False
+            par = {id(c): p_ for p_ in ast.walk(f.node) for c in ast.iter_child_nodes(p_)}
+            x: ast.AST = sub
+            while id(x) in par:
+                x = par[id(x)]
+                if isinstance(x, (ast.DictComp, ast.ListComp, ast.SetComp, ast.GeneratorExp)) and any(norm(i) == f"{sub.slice.id} in store" for g_ in x.generators for i in g_.ifs):
+                    guarded = True
+            nd = cfg.node_containing(sub)
+            if not guarded and nd is not None:
+                guarded = any(t == f"{sub.slice.id} in store" and pol for t, pol in guard_facts(cfg, Defs(f), nd))
+            ctx.add("2-order", f, sub, guarded, f"`{norm(sub)}` is only looked up for names that the restricted run computes" if guarded else
+                    f"`{norm(sub)}` looks up the store of the RESTRICTED pipeline for every name of the executor dict: a configuration that is valid for the full run (`executor={{'w': ex1, '': ex2}}`) makes "
+                    "map(output_names={'z'}) fail with KeyError('w') - the request is computable and is refused", key=f"settings-tolerate-restriction {f.name}")
+    ctx.add("2-order", "pipefunc.map._prepare", "", True, f"{n} store lookup(s) by configured names examined", key="settings-scan")
+
+
 def rule_returns_all(ctx: Ctx) -> None:
     """What the drivers computed is what they return: the result mapping is keyed by SINGLE names (one entry per name of a
     tuple output) while a request (`output_names`) holds OUTPUT_TYPE values (a tuple for a multi-output function), so the two
@@ -336,7 +369,7 @@ def rule_returns_all(ctx: Ctx) -> None:
 
 
 def check(ctx: Ctx) -> None:
-    for rule in (rule_closure, rule_cut_is_what_was_supplied, rule_single_names_vs_whole_names, rule_order, rule_message, rule_forward, rule_returns_all):
+    for rule in (rule_closure, rule_cut_is_what_was_supplied, rule_single_names_vs_whole_names, rule_settings_tolerate_the_restriction, rule_order, rule_message, rule_forward, rule_returns_all):
         ctx.run(rule)
 
 
